@@ -14,6 +14,7 @@ pub mod ind;
 pub mod grid;
 pub mod api;
 pub mod xbuild;
+pub mod indcheck;
 
 pub struct ReplayReq {
 	pub system: String,
